@@ -36,6 +36,8 @@ Templates == { [kind |-> "file", dirs |-> d, declared |-> s, actual |-> s, inner
                [kind |-> "fakezip", dirs |-> 0, declared |-> 3, actual |-> 3, inner |-> "none", again |-> FALSE],
                \* a zip64 header declaring 2^63 bytes or more (beyond every limit, negative once read as a signed size) over a small stream
                [kind |-> "file", dirs |-> 0, declared |-> Overflow, actual |-> 3, inner |-> "none", again |-> FALSE] }
+       \* the same name twice: a one-unit entry first, then the three-unit entry that replaces it - three units are what stays on disk
+       \cup  { [kind |-> "repeat", dirs |-> 0, declared |-> 3, actual |-> 3, inner |-> "none", again |-> FALSE] }
        \* explicit directory entries and nothing in them: "q0/", "q0/q1/", ... (each an item of the tree at the depth of its path)
        \cup  { [kind |-> "dirchain", dirs |-> d, declared |-> 0, actual |-> 0, inner |-> "none", again |-> FALSE] : d \in {1, 3} }
        \cup  { [kind |-> "nested", dirs |-> d, declared |-> 0, actual |-> 0, inner |-> i, again |-> a] : d \in 0..1, i \in DOMAIN Inner, a \in BOOLEAN }
@@ -45,7 +47,7 @@ CONSTANT Thorough   \* FALSE: a covering subset of archives and limit configurat
 LimitValues == {0, 1, 2, 3, Big}
 VARIABLES archive, maxFile, maxTotal, maxCount, maxDepth, recursive
 vars == <<archive, maxFile, maxTotal, maxCount, maxDepth, recursive>>
-Core == {t \in Templates : (t.kind = "file" /\ t.dirs = 1) \/ t.kind = "fakezip" \/ t.kind = "dirchain" \/ t.declared = Overflow \/ (t.kind = "nested" /\ t.dirs = 0 /\ ~t.again /\ t.inner \in {"two", "bomb"})
+Core == {t \in Templates : (t.kind = "file" /\ t.dirs = 1) \/ t.kind = "fakezip" \/ t.kind = "dirchain" \/ t.kind = "repeat" \/ t.declared = Overflow \/ (t.kind = "nested" /\ t.dirs = 0 /\ ~t.again /\ t.inner \in {"two", "bomb"})
                             \/ (t.kind = "nested" /\ t.dirs = 1 /\ t.again /\ t.inner = "deep")}
 Archives == {<<t>> : t \in Templates} \cup {<<t, u>> : t \in (IF Thorough THEN Templates ELSE Core), u \in (IF Thorough THEN Templates ELSE Core)}
 \* each limit independently tiny / exact / off by one / huge; at most two (quick: one) limits away from "huge" at a time
